@@ -90,13 +90,14 @@ def emitItem (q : Quirks) (ops : Ops σ) (c : SelCtx σ) : Core σ → St σ →
           | .error e => .error e
           | .ok st2 => liftInv (close q ops st2)
   | .media a body, st =>
-      match emitBody q ops c body (startMedia (!c.excluded || q.atRootKeepsRule) a st) with
+      -- a bare declaration directly in the at-rule is kept there (as at the top level)
+      match emitBody q ops { c with excluded := false } body (startMedia (!c.excluded || q.atRootKeepsRule) a st) with
       | .error e => .error e
       | .ok st2 => liftInv (close q ops st2)
   | .atrule n a body, st =>
       -- `name == "keyframes"` ⇒ `sub_selectors(scope, SelectorCtx::root())`
       let c' : SelCtx σ :=
-        if ops.isKeyframes n then {} else { c with excluded := c.excluded && ops.isSupports n }
+        if ops.isKeyframes n then {} else { c with excluded := false }
       match emitBody q ops c' body (startAtRule ops (!c.excluded || q.atRootKeepsRule) n a st) with
       | .error e => .error e
       | .ok st2 => liftInv (close q ops st2)
